@@ -19,7 +19,7 @@ from . import common, rel, tlc
 
 TIERS = {
     "quick": dict(sample=300, sim_num=80, sim_depth=4, fsample=150),
-    "thorough": dict(sample=3000, sim_num=1500, sim_depth=5, fsample=1500),
+    "thorough": dict(sample=3000, sim_num=240, sim_depth=4, fsample=1500),
 }
 
 
